@@ -197,7 +197,7 @@ def gen_cases(tier, seed):
             for trig in (("pub", "ctl") if tier == "thorough" else (rng.choice(["pub", "ctl"]),)):
                 cases.append({"mode": "pair", "a": a, "b": b, "perm": p, "trigger": trig, "tc": False})
     # (vi') structure-aware fuzz: long streams of well-framed frames with random header fields, types and payloads
-    nfuzz = 40 if tier == "quick" else 1500
+    nfuzz = 40 if tier == "quick" else 6000
     for i in range(nfuzz):
         cases.append({"mode": "fuzz", "seed": rng.getrandbits(40), "stage": STAGES[i % len(STAGES)], "nframes": rng.choice([20, 60, 150]), "tc": i % 7 == 6})
     # (vii) floods
@@ -208,7 +208,7 @@ def gen_cases(tier, seed):
     # (viii) black box
     bb = [f for f in cat if f["kind"] in ("msg_type", "length", "connect_v2_name", "set_name", "cut_at_offset", "zero_length_control", "hdr_field")]
     rng.shuffle(bb)
-    nb, per = (3, 24) if tier == "quick" else (16, 120)
+    nb, per = (3, 24) if tier == "quick" else (32, 120)
     for i in range(nb):
         cases.append({"mode": "blackbox", "faults": bb[i * per:(i + 1) * per], "flood": [0, 110, 270][i % 3], "timeout": 230})
     return cases
